@@ -121,6 +121,9 @@ def expand(codes, coding):
     return tab[codes]
 
 
+PADS = (b" ", b"\0", b"\n", b"\xff", "caf\xe9 ".encode("latin-1"), b"\x80\x00")  # fill between "end_head" and the data (never part of a field)
+
+
 def make_file(rng, spec):
     """-> (bytes, expected array, warn flag)"""
     c, n, coding, order, hdr = spec["nchan"], spec["nsamp"], spec["coding"], spec["order"], spec["hdrsize"]
@@ -157,7 +160,7 @@ def make_file(rng, spec):
     if spec.get("extra"):
         extra = ("database_id -s5 VERIF", "speaker_id -s3 abc", "sample_sig_bits -i 16")[: spec["extra"]]
     coding_str = {"pcm": "pcm", "ulaw": "ulaw", "alaw": "alaw"}[coding]
-    h = SW.header(c, n, coding_str, nbytes, order if coding == "pcm" else "1", hdr, extra=extra, lead=spec.get("lead", 0))
+    h = SW.header(c, n, coding_str, nbytes, order if coding == "pcm" else "1", hdr, extra=extra, lead=spec.get("lead", 0), pad=PADS[spec.get("pad", 0)])
     keep = n
     if spec.get("cut_bytes") is not None:
         total = len(data) - spec["cut_bytes"]
@@ -333,6 +336,7 @@ def make_spec(seed, idx):
     n = int(rng.choice([1, 2, max(1, per - 1), per, per + 1, 2 * per, 2 * per + 1, 3 * per - 1, 3 * per + 2, 5 * per + 1, int(rng.integers(1, 40000 // c + 2)), int(rng.integers(1, 300))]))
     spec = dict(nchan=c, nsamp=max(1, n), coding=coding, order=str(rng.choice(["01", "10"])), hdrsize=int(rng.choice([1024, 1024, 2048, 4096])),
                 extra=int(rng.integers(0, 4)), access=str(rng.choice(["path", "stream", "path_force"])), style=str(rng.choice(["noise", "ramp"])))
+    spec["pad"] = idx % len(PADS)
     if spec["hdrsize"] > 1024 and rng.random() < 0.6:
         # enough optional fields in front that the mandatory ones reach, or straddle, byte 1024 of the header
         spec["lead"] = int(rng.integers(840, 1011))
